@@ -10,18 +10,15 @@
    is not identically zero -- every Levinson stage then has positive power, Proofs/ArmaEstPos.v), the second run sees
    the same vector [1, a]. *)
 Require Import Spectrum.Theory.Ops Spectrum.Theory.Sum Spectrum.Theory.Vec Spectrum.Theory.Order Spectrum.Theory.Dft
-               Spectrum.Model.Levinson Spectrum.Model.Corr Spectrum.Model.Ls Spectrum.Model.ArmaEst
+               Spectrum.Model.Levinson Spectrum.Model.Corr Spectrum.Model.Ls Spectrum.Model.ArmaEst Spectrum.Model.ArmaCall
                Spectrum.Proofs.LevinsonTheory Spectrum.Proofs.CorrTheory Spectrum.Proofs.ScaleTheory
                Spectrum.Proofs.ScaleUtil_C03 Spectrum.Proofs.ScaleLs_C03
-               Spectrum.Proofs.ArmaEstTheory Spectrum.Proofs.ArmaEstPos.
+               Spectrum.Proofs.ArmaEstTheory Spectrum.Proofs.ArmaEstPos Spectrum.Proofs.ArmaEstNondeg.
 
 Section ScaleArma.
 Context {F : Type} {OF : Ops F} {L : Laws OF} {OL : OrdLaws OF}.
 Local Open Scope F_scope.
 Add Field FFsarma : (fth (O:=OF)).
-
-(* "non-degenerate data": some sample is not zero *)
-Definition nonzero_data (x : list F) : Prop := exists n, (n < length x)%nat /\ nthF x n <> 0.
 
 (* ---------------- aryule (biased) and ma ---------------- *)
 Lemma aryule_est_scale c (x : list F) order : c <> 0 -> nonzero_data x ->
@@ -31,26 +28,12 @@ Proof.
   rewrite (acorr_scale_thm c x order Biased Hc) by discriminate.
   destruct (acorr x order Biased) as [r|] eqn:Er; [|reflexivity].
   rewrite su_vscale_length. apply levinson_scale_thm; [apply su_pos_nrm2; exact Hc|].
-  assert (Hlen : length r = S order).
-  { unfold acorr in Er. destruct (correlation_def_thm _ _ _ _ _ _ Er) as (_ & Hl & _). exact Hl. }
-  rewrite Hlen, (re_real _ (r0_real x order r Er)). replace (S order - 1)%nat with order by lia.
-  intros q A P ks Hq E.
-  destruct (lev_iter_pos x order r Er Hx q ltac:(lia)) as (A' & P' & ks' & E' & _ & _ & _ & HP & _).
-  rewrite E in E'. injection E' as _ <- _. apply HP.
+  destruct (yule_stages_nonzero x r order Hx Er) as (Hlen & Hre & Hst).
+  rewrite Hlen, Hre. replace (S order - 1)%nat with order by lia. exact Hst.
 Qed.
 
 Definition ma_scaled (s : F) (r : aerr + (list F * F)) : aerr + (list F * F) :=
   match r with inl e => inl e | inr (b, rho) => inr (b, s * rho) end.
-
-(* the exceptions of ma depend on Q, M and the length only *)
-Lemma ma_error_length (x x' : list F) Q M e : length x' = length x -> ma x Q M = inl e -> ma x' Q M = inl e.
-Proof.
-  intros Hl H. destruct (ma_errors_thm x Q M) as (H1 & H2 & H3). destruct (ma_errors_thm x' Q M) as (H1' & H2' & _).
-  destruct e.
-  - apply H1'. apply H1. exact H.
-  - apply H2'. rewrite Hl. apply H2. exact H.
-  - contradiction.
-Qed.
 
 Theorem ma_scale_thm c (x : list F) Q M : c <> 0 ->
   (forall b rho, ma x Q M = inr (b, rho) -> nonzero_data x) ->
@@ -94,10 +77,6 @@ Definition ls_agree_scaled (lsm lsq lsm' lsq' : list F -> nat -> list F) (s : F)
   forall r, acorr x lag Unbiased = Some r ->
     firstn P (lsm' (vscale s (arma_y r P Q lag)) P) = firstn P (lsm (arma_y r P Q lag) P)
     /\ lsq' (vscale s (arma_y r P Q lag)) P = lsq (arma_y r P Q lag) P.
-(* the residual handed to ma is not identically zero (the hypothesis of C15's arma_rho_pos) *)
-Definition arma_nondeg (lsm lsq : list F -> nat -> list F) (x : list F) (P Q lag : nat) : Prop :=
-  forall a b rho, arma_estimate lsm lsq x P Q lag = inr (a, b, rho) -> nonzero_data (arma_resid x a P).
-
 Theorem arma_estimate_scale_gen (lsm lsq lsm' lsq' : list F -> nat -> list F) c (x : list F) P Q lag : c <> 0 ->
   ls_agree_scaled lsm lsq lsm' lsq' (nrm2 c) x P Q lag -> arma_nondeg lsm lsq x P Q lag ->
   arma_estimate lsm' lsq' (vscale c x) P Q lag = arma_scaled (nrm2 c) (arma_estimate lsm lsq x P Q lag).
@@ -132,10 +111,6 @@ Qed.
 
 (* ---------------- instance 1: the executable solver of Model/Ls.v (arcovar = corrmtx + Gaussian elimination on the
    normal equations with exact zero tests + the code's post-processing); no side condition ---------------- *)
-Definition lsq_cov (tol : F) (y : list F) (p : nat) : list F :=
-  match arcovar tol y p with Some (a, _) => a | None => [] end.
-Definition lsm_cov (tol : F) (y : list F) (p : nat) : list F := pad (length y) (lsq_cov tol y p).
-
 Theorem ls_cov_homogeneous tol : ls_homogeneous (lsm_cov tol) (lsq_cov tol).
 Proof.
   intros s y p Hs.
@@ -261,19 +236,7 @@ Proof.
   destruct (class_rho_exposed cl); reflexivity.
 Qed.
 
-(* parma(data, P, Q, lag, NFFT, sampling, scale_by_freq)() = arma_estimate, then the class pipeline *)
-Definition parma_call (tw : Z -> F) (lsm lsq : list F -> nat -> list F) (x : list F) (P Q lag : nat)
-           (twopi sampling : F) (NFFT : nat) (real sbf : bool) : aerr + @exposed F :=
-  match arma_estimate lsm lsq x P Q lag with
-  | inl e => inl e
-  | inr (a, b, rho) => class_call tw Cparma a b rho (length x) P twopi sampling NFFT real sbf
-  end.
-Definition pma_call (tw : Z -> F) (x : list F) (Q M : nat) (twopi sampling : F) (NFFT : nat) (real sbf : bool) : aerr + @exposed F :=
-  match ma x Q M with
-  | inl e => inl e
-  | inr (b, rho) => class_call tw Cpma [] b rho (length x) M twopi sampling NFFT real sbf
-  end.
-
+(* parma.__call__ / pma.__call__ = the estimator, then the class pipeline (Model/ArmaCall.v) *)
 Theorem parma_scale_gen tw (lsm lsq lsm' lsq' : list F -> nat -> list F) c (x : list F) P Q lag twopi sampling NFFT real sbf : c <> 0 ->
   ls_agree_scaled lsm lsq lsm' lsq' (nrm2 c) x P Q lag -> arma_nondeg lsm lsq x P Q lag ->
   parma_call tw lsm' lsq' (vscale c x) P Q lag twopi sampling NFFT real sbf
